@@ -1062,9 +1062,13 @@ func (r *Reader) DocumentWithOptions(opts ExtractOptions) (*model.Document, erro
 		case ElementTable:
 			if elem.Table != nil && len(elem.Table.Rows) > 0 {
 				numRows := len(elem.Table.Rows)
+				// Rows may differ in length (colspan/rowspan); size the grid
+				// by the longest one so that no cell is dropped.
 				numCols := 0
-				if numRows > 0 {
-					numCols = len(elem.Table.Rows[0])
+				for _, row := range elem.Table.Rows {
+					if len(row) > numCols {
+						numCols = len(row)
+					}
 				}
 
 				modelTable := model.NewTable(numRows, numCols)
